@@ -48,6 +48,12 @@ CHECKS = {
  "C14": dict(tech="reference-model oracle (per-attribute comparator by reflection) plus reconstruction monitor apply(a,diff)==b",
    text="Ordered node pairs of six kinds (independent, single-attribute mutants at every reflected site, permuted copies, empty-vs-absent collections, duplicates, sub-second date changes) are diffed in both directions; nil-ness, DiffCount and reconstruction of the second node from the first and the diff are checked against a reference comparator over all schema attributes.",
    note="Trusts the reference comparator and the documented meaning of Added/Removed; separator-free text.", ref="DESIGN.md §5 C14"),
+ "C17": dict(tech="Go race detector + abort monitor + per-call sequential oracle + porcupine linearizability check of recorded registry histories, with verif-tagged yield points widening the interleaving windows",
+   text="Rounds in fresh processes: a fixed call set (sniffing JSON/tag-value/garbage, parsing, parsing with reader options, writing independent documents through writers built WithFormat(F)) is executed sequentially and then from 4/16/64 goroutines while both format registries are churned; every concurrent result must equal its sequential result. Registry histories (2-4 clients, <=200 operations, 2-3 contended keys, one atomic clock) are checked for linearizability against a per-key register with porcupine v1.3.0. The same rounds run in a -race build whose GORACE logs are parsed; a runtime abort kills the supervised child and is attributed to the round. The verif build tag installs yield points (pkg/verifhook) at five interleaving windows; their global order is logged and hashed as the interleaving signature.",
+   note="Schedules are sampled (distinct interleaving signatures are counted in the evidence); the race detector reports races on executed accesses (happens-before). A porcupine timeout makes the run inconclusive.", ref="DESIGN.md §5 C17"),
+ "C18": dict(tech="history monitor with a per-instance configuration model, each history in a fresh process; behavioural observation through WriteStream output and a recording storage backend",
+   text="Histories of constructor calls with every subset of the options (forced in the first cases; nil arguments included) and per-call WriteStreamWithOptions/ParseStreamWithOptions are executed in fresh processes; after every step every live instance is compared with its own model - Options fields, the format and indentation WriteStream really produces, the options a recording backend receives from Store/Retrieve - and a constructor without options must show the documented defaults.",
+   note="What an absent per-call field falls back to is not judged. Indentation is observable on SPDX output only (CycloneDX rendering ignores it).", ref="DESIGN.md §5 C18"),
  "C15": dict(tech="reference-model oracle (BFS with root boundaries) over all digraphs on 3 (thorough: 4) nodes and random multigraphs; CPU watchdog for termination",
    text="NodeGraph/NodeSiblings/NodeDescendants are executed on every digraph with self-loops on 3 nodes x every root subset x every start x depths 1..5 (thorough: also all 65536 digraphs on 4 nodes) and on random multigraphs up to 30 nodes; results are compared with an independent BFS model, checked for monotonicity and order-independence; a per-case CPU-time watchdog in the supervised child decides termination.",
    note="Trusts the BFS model and the watchdog budget (60 CPU-seconds per case, re-run alone with 10x before a hang is reported).", ref="DESIGN.md §5 C15"),
